@@ -90,12 +90,18 @@ def tag_ok(field, predefined):
     return "valid", n
 
 
+_LONGNUM = re.compile(r"[0-9]{4000,}")
+
+
 def recognise(text, version):
     if text == "":
         return "unspec"
     if text.startswith("#"):
         return "valid"
     if "\n" in text or "\r" in text:
+        return "unspec"
+    if _LONGNUM.search(text):
+        # a number longer than the implementation language converts: grammatical, but an implementation limit
         return "unspec"
     f = text.split("\t")
     rt = f[0]
